@@ -469,8 +469,7 @@ func (v *LogScopeVariables) Set(s context.Scope, name, operator string, val valu
 		if err := limitations.CheckProtectedHeader(match[1]); err != nil {
 			return errors.WithStack(err)
 		}
-		v.ctx.Response.Header.Set(match[1], val.String())
-		return nil
+		return assignResponseHeaderValue(v.ctx.Response, match[1], operator, val)
 	}
 
 	// If not found, pass to all scope value
@@ -480,8 +479,8 @@ func (v *LogScopeVariables) Set(s context.Scope, name, operator string, val valu
 func (v *LogScopeVariables) Add(s context.Scope, name string, val value.Value) error {
 	// Add statement could be use only for HTTP header
 	match := responseHttpHeaderRegex.FindStringSubmatch(name)
-	if match != nil {
-		// Nothing values to be enable to add in PASS, pass to base
+	if match == nil {
+		// Nothing values to be enable to add in LOG, pass to base
 		return v.base.Add(s, name, val)
 	}
 	if err := limitations.CheckProtectedHeader(match[1]); err != nil {
@@ -501,6 +500,6 @@ func (v *LogScopeVariables) Unset(s context.Scope, name string) error {
 	if err := limitations.CheckProtectedHeader(match[1]); err != nil {
 		return errors.WithStack(err)
 	}
-	v.ctx.Response.Header.Del(match[1])
+	unsetResponseHeaderValue(v.ctx.Response, match[1])
 	return nil
 }
